@@ -12,9 +12,11 @@ Pats == { <<"a",".","x">>, <<"b",".","x">>, <<"*",".","x">>, <<"a",".","*">>, <<
 Hosts == { <<"a",".","x">>, <<"b",".","x">>, <<"c",".","x">>, <<"a",".","y">>, <<"a","X","x">>, <<"x">>, DEFAULT, <<"a",".","b",".","x">>,
            <<"a",".","x","y">>, <<"z","a",".","x">> }     \* hosts that extend / are extended by a literal pattern (anchoring at both ends)
 
-Protos == <<"udp", "tcp", "tls", "udp">>
-\* entry attributes are derived from the position so that every entry's answer is distinguishable
-Entry(p, i) == [pat |-> p, proto |-> Protos[i], nhost |-> <<"n", ToString(i)>>, nport |-> IF i % 2 = 1 THEN 6000 + i ELSE 0]
+Protos == <<"udp", "tcp", "tls", "tls">>
+\* entry attributes are derived from the position so that every entry's answer is distinguishable; the ports cover
+\* explicit / omitted for every protocol, and an explicitly written default port (tls next hop on 5060)
+Ports == <<6001, 0, 5060, 0>>
+Entry(p, i) == [pat |-> p, proto |-> Protos[i], nhost |-> <<"n", ToString(i)>>, nport |-> Ports[i]]
 
 VARIABLES tab, host, done
 vars == <<tab, host, done>>
